@@ -16,6 +16,7 @@
   `cluster-prims-relabelled` correspondence stream.
 -/
 import RbModel.Lemmas.ClusterRelabel
+import RbModel.Lemmas.ClusterFeat
 import RbModel.Lemmas.Hangul
 import RbModel.Props.C17
 import RbModel.Lemmas.MorxRelabel
@@ -164,6 +165,67 @@ theorem C15_noninterference_stream (b : Buf) (g : Nat) (x : Info) (n : Nat) :
   ⟨nextGlyph_map b (Or.inl rfl), nextGlyphs_map b n (Or.inl rfl), copyGlyph_map b (Or.inl rfl),
    replaceGlyph_map b g (Or.inl rfl), outputGlyph_map b g (Or.inl rfl), outputInfo_map b x (Or.inl rfl),
    moveTo_map b n (Or.inl rfl), sync_map b (Or.inl rfl)⟩
+
+/-! ## feature bits travel with the glyph
+
+  The cluster level decides WHICH glyphs a merge rewrites (which glyphs share a cluster value).  For the level to change
+  "clusters and flags only", a merge may write nothing else into the glyphs it touches.  A mask holds the three glyph flags
+  (`glyph_flag::DEFINED`) and, above them, the feature bits `set_masks` gave the glyph — they select the lookups that
+  act on it.  `featKey x` = (glyph id, mask bits outside DEFINED, var1, var2);  `KeepFeat b b'` (Lemmas/ClusterFeat.lean):
+  every scalar field but `scratch_flags` is the same and the two Vecs agree on `featKey` position by position. -/
+
+/-- **`set_cluster` writes a cluster value and glyph flags, whatever mask it is handed** — in particular when
+    `delete_glyph` / `delete_glyphs_inplace` hand it the whole mask of the deleted glyph, feature bits included. -/
+theorem C15_set_cluster_keeps_feature_bits (x : Info) (cluster mask : Nat) :
+    featKey (setCluster x cluster mask) = featKey x ∧ (setCluster x cluster mask).cluster = cluster :=
+  ⟨featKey_setCluster x cluster mask, rfl⟩
+
+/-- **No primitive of the cluster / flag bookkeeping changes a mask bit outside `glyph_flag::DEFINED` of any glyph**
+    (nor a glyph id), at any cluster level, in any buffer, for all arguments: `merge_clusters`, `merge_out_clusters`,
+    the five flag routines and `form_clusters` leave every record of both Vecs in place with its `featKey`;
+    `delete_glyph` does the same and then skips the current glyph; after `delete_glyphs_inplace` the unmarked glyphs
+    stand in their old order with their `featKey`s.  (Stated for every run that does not panic; no invariant needed.) -/
+theorem C15_prims_keep_feature_bits (b b' : Buf) (s e : Nat) (eo : Option Nat) :
+    ((b.mergeClusters s e = .ok b' ∨ b.mergeOutClusters s e = .ok b' ∨ b.unsafeToBreak s eo = .ok b' ∨
+      b.unsafeToBreakFromOut s eo = .ok b' ∨ b.unsafeToConcat s eo = .ok b' ∨ b.unsafeToConcatFromOut s eo = .ok b' ∨
+      b.safeToInsertTatweel s eo = .ok b' ∨ b.formClusters = .ok b') → KeepFeat b b') ∧
+    (b.deleteGlyph = .ok b' → ∃ b1, KeepFeat b b1 ∧ b' = b1.skipGlyph) ∧
+    (b.deleteGlyphsInplace = .ok b' →
+      (b'.info.take b'.len).map featKey = ((b.info.take b.len).filter (fun x => !(x.var2 == 1))).map featKey) := by
+  refine ⟨?_, deleteGlyph_keepFeat, deleteGlyphsInplace_feat⟩
+  intro h
+  rcases h with h | h | h | h | h | h | h | h
+  · exact mergeClusters_keepFeat h
+  · exact mergeOutClusters_keepFeat h
+  · exact unsafeToBreak_keepFeat h
+  · exact unsafeToBreakFromOut_keepFeat h
+  · exact unsafeToConcat_keepFeat h
+  · exact unsafeToConcatFromOut_keepFeat h
+  · exact safeToInsertTatweel_keepFeat h
+  · exact formClusters_keepFeat h
+
+/-- what `KeepFeat` means for the logical glyph sequence `out[0..out_len) ++ info[idx..len)` a lookup sees: same
+    length, same glyph ids, same feature bits, in the same order -/
+theorem C15_keepFeat_sequence (b b' : Buf) (h : KeepFeat b b') :
+    (lview b').map featKey = (lview b).map featKey ∧ b'.idx = b.idx ∧ b'.len = b.len ∧ b'.outLen = b.outLen ∧
+    b'.level = b.level := by
+  refine ⟨h.lview, ?_, ?_, ?_, ?_⟩ <;> rw [h.1]
+
+/-- non-vacuity / witness: the backward merge of `delete_glyph` at the three levels.  Out-buffer: a base (cluster 5,
+    feature bit 8) and its mark (cluster 5 at the levels 0/1, 6 at level 2; feature bit 8); current glyph: cluster 2,
+    feature bit 0x100 and UNSAFE_TO_BREAK.  The flag is carried to the glyphs that take over the cluster — both at the
+    levels 0/1, the mark alone at level 2 — and the feature bit 0x100 reaches none of them. -/
+def exDelete (level markCluster : Nat) : Buf :=
+  { info := [⟨1, 8, 5, 0, 0⟩, ⟨2, 8, markCluster, 0, 0⟩, ⟨3, 0x101, 2, 0, 0⟩, ⟨4, 0, 1, 0, 0⟩], out := [{}, {}, {}, {}],
+    idx := 2, len := 4, outLen := 2, haveOutput := true, level := level }
+
+theorem C15_delete_backward_witness :
+    ((exDelete 0 5).deleteGlyph.toOption.map fun b => b.info.map fun x => (x.cluster, x.mask)) =
+      some [(2, 9), (2, 9), (2, 0x101), (1, 0)] ∧
+    ((exDelete 1 5).deleteGlyph.toOption.map fun b => b.info.map fun x => (x.cluster, x.mask)) =
+      some [(2, 9), (2, 9), (2, 0x101), (1, 0)] ∧
+    ((exDelete 2 6).deleteGlyph.toOption.map fun b => b.info.map fun x => (x.cluster, x.mask)) =
+      some [(5, 8), (2, 9), (2, 0x101), (1, 0)] := by decide
 
 /-! ## non-vacuity and the padding example -/
 
